@@ -79,7 +79,7 @@ class Prop(PropBase):
         t = case["t"]
         k = case.get("seed", 0) % 4
         if case["form"] == "int":
-            return (int(t), self.np.int64(int(t)), self.np.int32(int(t)), int(t))[k], F(int(t))
+            return (int(t), self.np.int64(int(t)), self.np.int32(int(t)), self.np.uint8(int(t)) if 0 <= int(t) < 256 else int(t))[k], F(int(t))
         if case["form"] == "float":
             return (float(t), self.np.float64(t), float(t), self.np.array(float(t)))[k], X.frac(float(t))
         if case["form"] == "duration":
